@@ -643,11 +643,14 @@ pub fn typed_traffic(ctx: &mut Ctx, m: u8, n: usize) {
           while pos < wire.len() { let step = match style { 0 => wire.len(), 1 => 1, 2 => rng.range(1, 3) as usize, _ => rng.range(1, 9) as usize }; pos = (pos + step).min(wire.len()); arrivals.push(pos); }
           if arrivals.is_empty() { arrivals.push(0); } }
         let mut results: Vec<(u8, u8, Vec<Item>, [u8; 16])> = Vec::new();
-        for facade in 0..2u8 {
+        // facade 2 (vanilla only): a combined object that also SENDS between the items and is split and re-joined
+        // (EncrypterHalf::unsplit) each time - the receive direction must not notice
+        for facade in 0..(if m == 0 { 3u8 } else { 2u8 }) {
             for mode in 0..2u8 {                                                  // 0 Read-based call with retry, 1 array call on complete headers
                 let (sc, wr, arr, ln) = (script.clone(), wire.clone(), arrivals.clone(), lens.clone());
                 let r = catch(move || {
-                    let mut d = make_dec(Sel { m, kind: sel_kind, facade }, key);
+                    let mut d = make_dec(Sel { m, kind: sel_kind, facade: facade.min(1) }, key);
+                    let rejoin = |d: &mut DecObj, n: usize| { if facade == 2 { if let DecObj::VC(c) = d { let mut junk = vec![0x33u8; (n * 7 + 3) % 11]; c.encrypt(&mut junk); let (e, dd) = c.clone().split(); *c = e.unsplit(dd).expect("own halves"); } } };
                     let mut got: Vec<Item> = Vec::new();
                     let (mut pos, mut idx, mut pay_done) = (0usize, 0usize, 0usize);
                     let mut pay: Vec<u8> = Vec::new();
@@ -657,7 +660,7 @@ pub fn typed_traffic(ctx: &mut Ctx, m: u8, n: usize) {
                                 Item::Payload(p) => {
                                     let take = (p.len() - pay_done).min(avail - pos);
                                     let mut b = wr[pos..pos + take].to_vec(); d.raw(&mut b); pay.extend(b); pos += take; pay_done += take;
-                                    if pay_done == p.len() { got.push(Item::Payload(std::mem::take(&mut pay))); pay_done = 0; idx += 1; } else { break; }
+                                    if pay_done == p.len() { got.push(Item::Payload(std::mem::take(&mut pay))); pay_done = 0; idx += 1; rejoin(&mut d, idx); } else { break; }
                                 }
                                 Item::Hdr(kind, _, _) => {
                                     let complete = avail - pos >= ln[idx];
@@ -665,12 +668,12 @@ pub fn typed_traffic(ctx: &mut Ctx, m: u8, n: usize) {
                                     let try_early = !(m == 2 && *kind == 0);
                                     if mode == 1 || !try_early {
                                         if !complete { break; }
-                                        if mode == 1 { let h = d.hdr(*kind, &wr[pos..pos + ln[idx]]); got.push(Item::Hdr(*kind, u32::from_le_bytes([h[1], h[2], h[3], h[4]]), u32::from_le_bytes([h[5], h[6], h[7], h[8]]))); pos += ln[idx]; idx += 1; continue; }
+                                        if mode == 1 { let h = d.hdr(*kind, &wr[pos..pos + ln[idx]]); got.push(Item::Hdr(*kind, u32::from_le_bytes([h[1], h[2], h[3], h[4]]), u32::from_le_bytes([h[5], h[6], h[7], h[8]]))); pos += ln[idx]; idx += 1; rejoin(&mut d, idx); continue; }
                                     }
                                     let mut rd: &[u8] = &wr[pos..avail];
                                     let had = rd.len();
                                     match d.read(*kind, &mut rd) {
-                                        Ok((s, o)) => { got.push(Item::Hdr(*kind, s, o)); pos += had - rd.len(); idx += 1; }
+                                        Ok((s, o)) => { got.push(Item::Hdr(*kind, s, o)); pos += had - rd.len(); idx += 1; rejoin(&mut d, idx); }
                                         Err(_) if !complete => break,                      // wait for more bytes, retry from the same place
                                         Err(_) => { got.push(Item::Hdr(*kind, u32::MAX, u32::MAX)); pos += ln[idx]; idx += 1; }
                                     }
@@ -687,7 +690,7 @@ pub fn typed_traffic(ctx: &mut Ctx, m: u8, n: usize) {
             }
         }
         for (facade, mode, got, pb) in &results {
-            let extra = format!(",\"receiver_is_combined_object\":{},\"receive_call\":\"{}\",\"arrivals\":{:?}", facade, if *mode == 0 { "read_and_decrypt_* on the buffered bytes, retried while incomplete" } else { "array call on complete headers" }, arrivals);
+            let extra = format!(",\"receiver_is_combined_object\":{},\"receiver_sends_and_is_split_and_rejoined_between_items\":{},\"receive_call\":\"{}\",\"arrivals\":{:?}", (*facade).min(1), *facade == 2, if *mode == 0 { "read_and_decrypt_* on the buffered bytes, retried while incomplete" } else { "array call on complete headers" }, arrivals);
             if *got != script {
                 let at = got.iter().zip(script.iter()).position(|(a, b)| a != b).unwrap_or(got.len().min(script.len()));
                 ctx.fail("typed_traffic", det0(&format!("the receiver does not recover item {} of the traffic: got {}", at, got.get(at).map(|g| items_json(std::slice::from_ref(g))).unwrap_or_else(|| "nothing".into()).replace('"', "'")), extra));
